@@ -24,8 +24,12 @@ def sh(cmd, cwd=None, timeout=3600):
 
 subprocess.run(["git", "-C", "/repo", "worktree", "remove", "--force", wt], stderr=subprocess.DEVNULL)
 shutil.rmtree(wt, ignore_errors=True)
-subprocess.check_call(["git", "-C", "/repo", "worktree", "add", "-q", "--detach", wt, "HEAD"])
-res = {"seed": sid, "property": prop, "at_repo_commit": subprocess.check_output(["git", "-C", "/repo", "rev-parse", "--short", "HEAD"], text=True).strip()}
+base = "HEAD"
+for a_ in sys.argv:
+    if a_.startswith("--base="):
+        base = a_.split("=", 1)[1]     # a demonstration with known answers of an earlier tree is confirmed at that commit
+subprocess.check_call(["git", "-C", "/repo", "worktree", "add", "-q", "--detach", wt, base])
+res = {"seed": sid, "property": prop, "at_repo_commit": subprocess.check_output(["git", "-C", "/repo", "rev-parse", "--short", base], text=True).strip()}
 try:
     readme = open(os.path.join(src, "README.txt")).read()
     m = None
